@@ -6,6 +6,7 @@ import fn_density as fd
 PID = "C13"
 MODEL_TARGETS = ["Generated", "Density"]
 PROPS_TARGETS = ["Props_C13"]
+SUPPORT_TARGETS = ["FloatExact"]
 TRUSTED_BASE = ["modelled, not verified: numpy masked diff / sign / multiplication, the `(delta < thr) == True` selection, "
                 "np.mean / np.sign / NaN comparisons in pressure_increasing_test"]
 ASSUMPTIONS = ["depths and densities on the dyadic grid; pressure profiles of present values (NaN behaviour is modelled "
